@@ -41,7 +41,19 @@ def rand_array(rng, shape, complex_):
     a = np.array([rng.randint(-5, 5) for _ in range(int(np.prod(shape)))], dtype=float).reshape(shape)
     if complex_:
         b = np.array([rng.randint(-3, 3) for _ in range(int(np.prod(shape)))], dtype=float).reshape(shape)
-        return a + 1j * b
+        a = a + 1j * b
+    # the same values in the memory layouts element operators produce: C order, Fortran order, the layout einsum returns for
+    # '...ij' built from '...ji' (the transposed view is the contiguous one), a strided view of a larger buffer
+    layout = rng.choice(["C", "C", "F", "transposed-contiguous", "strided"])
+    if layout == "F":
+        a = np.asfortranarray(a)
+    elif layout == "transposed-contiguous" and len(shape) == 3:
+        a = np.ascontiguousarray(a.swapaxes(1, 2)).swapaxes(1, 2)
+    elif layout == "strided":
+        big = np.zeros(tuple(2 * n for n in shape), dtype=a.dtype)
+        view = big[tuple(slice(None, None, 2) for _ in shape)]
+        view[...] = a
+        a = view
     return a
 
 
